@@ -10,11 +10,13 @@ import subprocess
 OBJDUMP = "objdump"
 
 
-def make_elf(sections, symbols=(), bits=64, addrs=None, etype=1):
+def make_elf(sections, symbols=(), bits=64, addrs=None, etype=1, relocs=()):
     """sections: list of (name, bytes, executable: bool); symbols: (name, section index 1-based, value, 'func'|'object').
     Returns the bytes of an ET_REL object for x86-64 (bits=64) or i386 (bits=32).  With `addrs` (one virtual address per section)
     and etype 2 / 3 the result is what a linked executable / shared object looks like to `objdump -d`: sections at their load
-    addresses, symbol values absolute (no program headers: objdump does not need them to disassemble)."""
+    addresses, symbol values absolute (no program headers: objdump does not need them to disassemble).
+    relocs (ELF64 only): (section index 1-based, offset, symbol index 1-based, relocation type, addend) -> one .rela<name> section per
+    section that has any; `objdump -r` prints them between / after the instruction lines."""
     shstr = b"\0"
 
     def add(n):
@@ -51,6 +53,12 @@ def make_elf(sections, symbols=(), bits=64, addrs=None, etype=1):
             syms += struct.pack("<IBBHQQ", so, (1 << 4) | typ, 0, si, val, 0)
         else:
             syms += struct.pack("<IIIBBH", so, val, 0, (1 << 4) | typ, 0, si)
+    rela = {}
+    if is64:
+        for (si, off, symi, rtyp, addend) in relocs:
+            rela.setdefault(si, b"")
+            rela[si] += struct.pack("<QQq", off, (symi << 32) | rtyp, addend)
+    rela_names = {si: add(".rela" + sections[si - 1][0]) for si in sorted(rela)}
     n_sym, n_str, n_shstr = add(".symtab"), add(".strtab"), add(".shstrtab")
     body += b"\0" * ((-(ehsize + len(body))) % 8)
     symoff = ehsize + len(body)
@@ -60,6 +68,10 @@ def make_elf(sections, symbols=(), bits=64, addrs=None, etype=1):
     shstroff = ehsize + len(body)
     body += shstr
     body += b"\0" * ((-(ehsize + len(body))) % 8)
+    rela_offs = {}
+    for si in sorted(rela):
+        rela_offs[si] = ehsize + len(body)
+        body += rela[si]
     shoff = ehsize + len(body)
     nsec = len(secs)
     if is64:
@@ -70,7 +82,10 @@ def make_elf(sections, symbols=(), bits=64, addrs=None, etype=1):
         sh += struct.pack(fmt, n_sym, 2, 0, 0, symoff, len(syms), nsec + 2, 1, 8, 24)
         sh += struct.pack(fmt, n_str, 3, 0, 0, stroff, len(strtab), 0, 0, 1, 0)
         sh += struct.pack(fmt, n_shstr, 3, 0, 0, shstroff, len(shstr), 0, 0, 1, 0)
-        eh = b"\x7fELF" + bytes([2, 1, 1, 0]) + b"\0" * 8 + struct.pack("<HHIQQQIHHHHHH", etype, 62, 1, 0, 0, shoff, 0, 64, 0, 0, 64, nsec + 4, nsec + 3)
+        for si in sorted(rela):
+            # SHT_RELA, SHF_INFO_LINK; link = the symbol table, info = the section the relocations apply to
+            sh += struct.pack(fmt, rela_names[si], 4, 0x40, 0, rela_offs[si], len(rela[si]), nsec + 1, si, 8, 24)
+        eh = b"\x7fELF" + bytes([2, 1, 1, 0]) + b"\0" * 8 + struct.pack("<HHIQQQIHHHHHH", etype, 62, 1, 0, 0, shoff, 0, 64, 0, 0, 64, nsec + 4 + len(rela), nsec + 3)
     else:
         fmt = "<IIIIIIIIII"
         sh = struct.pack(fmt, 0, 0, 0, 0, 0, 0, 0, 0, 0, 0)
@@ -90,7 +105,9 @@ def run_objdump(args, timeout=120):
 
 
 LAYOUTS = {"default": [], "wide": ["-w"], "insn-width-8": ["--insn-width=8"], "insn-width-11": ["--insn-width=11"], "insn-width-15": ["--insn-width=15"],
-           "no-raw": ["--no-show-raw-insn"], "wide-no-raw": ["-w", "--no-show-raw-insn"]}
+           "no-raw": ["--no-show-raw-insn"], "wide-no-raw": ["-w", "--no-show-raw-insn"],
+           # relocation records: on lines of their own between the instruction lines (-r), or appended to the instruction line (-w -r)
+           "reloc": ["-r"], "wide-reloc": ["-w", "-r"]}
 
 
 def disassemble_blob(path, mode="x86-64", layout="default"):
